@@ -417,7 +417,7 @@ func stalledCase(rng *rand.Rand, seed int64) *wire.Case {
 	f := pipesup.GenFile(rng, 3*procs+2, false)
 	stall := 1 + rng.Intn(len(f.Items)-1)
 	kind := rng.Intn(2)
-	d := time.Duration(300+rng.Intn(3000)) * time.Microsecond
+	d := time.Duration(20000+rng.Intn(20000)) * time.Microsecond // long enough for Start and for draining what was read
 	var ctx context.Context
 	var cancel func()
 	if kind == 1 {
@@ -448,7 +448,13 @@ func stalledCase(rng *rand.Rand, seed int64) *wire.Case {
 		ch <- r
 	}()
 	if kind == 0 {
-		go func() { time.Sleep(d); cancel() }()
+		go func() {
+			for atomic.LoadInt32(&rd.Stalled) == 0 { // the stream has stopped delivering
+				time.Sleep(200 * time.Microsecond)
+			}
+			time.Sleep(d / 8) // let the consumer drain what was read and block in Next
+			cancel()
+		}()
 	}
 	var r res
 	hung := false
